@@ -231,12 +231,12 @@ Ret(kind, hasOut, out, hasErr, err) ==
      /\ delivered' = nd
      /\ viol' = viol
           \cup V(kind # "panic", "C01_panic")
-          \cup V(\A o \in Outs : has[o] = (o \in piped), "C02_absent_iff_not_piped")
+          \cup V(kind # "panic" => \A o \in Outs : has[o] = (o \in piped), "C02_absent_iff_not_piped")
           \cup V(\A o \in Outs : IsPrefixOf(nd[o], written[o]), "C02_out_exact")
           \cup V(complete => \A o \in Outs \cap piped : nd[o] = written[o] /\ buf[o] = <<>> /\ ~cOpen[o],
                  "C02_out_complete")
           \cup V(complete /\ "in" \in piped => inAcc = input /\ ~pOpen["in"], "C02_in_complete")
-          \cup V(kind = "ok" => ~InputDoneButOpen, "C02_in_eof_prompt")
+          \cup V(kind \in {"ok", "timedout"} => ~InputDoneButOpen, "C02_in_eof_prompt")
           \cup V(limit >= 0 /\ kind \in {"ok", "timedout"} => total <= limit, "C03_limit")
           \cup V(kind = "ok" /\ allEmpty => \A o \in Outs \cap piped : buf[o] = <<>> /\ ~cOpen[o],
                  "C03_empty_is_eof")
@@ -313,7 +313,7 @@ PWrite(ids, n) ==
              /\ Len(ids) <= Free("in")
         ELSE /\ pwDone <= n
              /\ Len(rest) <= Free("in")
-             /\ n = Len(ids) \/ ~cOpen["in"]
+             /\ n = Len(ids) \/ (~cOpen["in"] /\ n = pwDone /\ n >= 1)
      /\ buf' = [buf EXCEPT !["in"] = @ \o rest]
      /\ inAcc' = inAcc \o rest
      /\ LET a == AfterBump("write")
@@ -364,5 +364,4 @@ Runaway ==
 EnvConsistent ==
   /\ \A s \in Streams : Len(buf[s]) <= cap
   /\ "in" \in piped => cRecv \o buf["in"] = inAcc
-  /\ \A o \in Outs : o \in piped => IsPrefixOf(delivered[o], written[o])
 =============================================================================
